@@ -188,6 +188,46 @@ def retry_cases(tier):
     return st.fixed_dictionaries({'v': S.bad_tables()})
 
 
+def check_interleaved(case):
+    """encode X, then its equal-comparing twins and N distinct unrelated values (N around
+    powers of two, so that any bounded memo is filled and evicted), then X again: the two
+    encodings of X must be identical, and equal to those of an equal fresh table"""
+    import copy
+    import datetime
+    del _KEEP[:]
+    a, b = S.fold_pair(case['year'], case['minute'], case['micro'])
+    x = {'when': b if case['order'] else a, 'n': 1, 'f': 1.5, 'd': S.decimal.Decimal('1.50')}
+    first = call('encode', encode.field_table, x)
+    twins = {'when': a if case['order'] else b, 'n': True, 'f': 1.5,
+             'd': S.decimal.Decimal('1.5')}
+    call('encode', encode.field_table, twins)
+    base = datetime.datetime(2001, 1, 1, tzinfo=datetime.timezone.utc)
+    for i in range(case['fill']):
+        call('encode', encode.field_table,
+             {'when': base + datetime.timedelta(seconds=61 * i), 'n': 1000 + i,
+              'f': i + 0.5, 'd': S.decimal.Decimal(i).scaleb(-2), 'k%d' % i: 'v%d' % i})
+    call('encode', encode.field_table, twins)
+    second = call('encode', encode.field_table, x)
+    third = call('encode', encode.field_table, copy.deepcopy(x))
+    if first != second or first != third:
+        raise Violation('differs-after-other-encodes', 'the same table encoded before '
+                        'and after %d other encodes (incl. its equal-comparing twin) '
+                        'gives different bytes' % case['fill'])
+    return ['fill>=256' if case['fill'] >= 256 else 'fill<256']
+
+
+def interleaved_cases(tier, shard, nshards):
+    fills = sorted({0, 1, 2} | {2 ** k + d for k in (5, 7, 8, 9, 10) for d in (-1, 0, 1)})
+    if tier == 'thorough':
+        fills += [2047, 2048, 2049, 4095, 4096, 4097]
+    out = []
+    for i, fill in enumerate(fills):
+        for order in (0, 1):
+            out.append({'fill': fill, 'order': order, 'year': 1975 + 7 * i,
+                        'minute': (13 * i) % 60, 'micro': 4567 * i % 1000000})
+    return out[shard::nshards]
+
+
 # ---------------------------------------------------------------- frames
 
 def frame_snapshot(obj):
@@ -264,6 +304,11 @@ COMPONENTS = [
               nontrivial=table_nontrivial, classes=table_classes,
               budget={'quick': 24000, 'thorough': 640000},
               describe='random nested tables with a drawn permutation at every level'),
+    Component('interleaved', check_interleaved, cases=interleaved_cases,
+              nontrivial=lambda c: True, distinct_by_construction=True,
+              describe='one table encoded before and after N other encodes (N around '
+                       'powers of two up to 1025, thorough 4097) that include its '
+                       'equal-comparing twin'),
     Component('retry', check_retry, strategy=retry_cases,
               nontrivial=lambda c: True, budget={'quick': 3200, 'thorough': 64000},
               describe='a table with one refused leaf (every kind of refusal) is encoded, '
